@@ -2,10 +2,12 @@
 import concurrent.futures
 import itertools
 import json
+import os
 import random
 
 import common as C
 import c12
+import c16
 import drive_store_typed as DT
 
 COQ_FILES = ("L4_Eval/Store.v", "L5_Stores/RunStore.v", "L5_Stores/PathMap.v", "L5_Stores/PathMapProofs.v", "L6_Conc/LocalProgs.v", "L6_Conc/SeqRefine.v", "Properties/C08.v", "Properties/C08b.v", "Base/PyRt.v", "Extracted/GenPath.v", "L5_Stores/GenPathProofs.v", "Properties/C08g.v")
@@ -29,6 +31,25 @@ TYPED = {"s_text": ["str", "text"], "s_empty": ["str", ""], "s_uni": ["str", "\u
 TYPED_CORE = ["s_text", "s_empty", "b_bin", "b_text", "b_pickle_text", "none", "o_dict", "o_zero"]
 TYPED_STORES = ["memory", "local", "dbfs-full"]
 TKEYS = ["k0", "k1", "k2"]
+# shapes of the directories a store is opened on (internal directory x data directory): the ones of C16 (relative, trailing
+# slash, nested not yet existing, pre-existing, a symbolic link among the ancestors or the directory itself a link) and more;
+# @BASE@ is the fresh base directory of a history (prepared by drive_store_dirs.layout), @BASENAME@ its last component
+DIR_SHAPES = dict(c16.DIR_SHAPES)
+DIR_SHAPES.update({
+    "spaces-unicode-dots": lambda base, name: os.path.join(base, "sp ace", "\u00e9 \u00fc", ".hid.d", name + ".d"),
+    "dot-dot-segment": lambda base, name: os.path.join(base, "real_parent", "..", name),
+    "double-slash": lambda base, name: base + "//n3//" + name + "//",
+    "relative-up": lambda base, name: os.path.join("..", "@BASENAME@", name),
+    "symlink-relative-target": lambda base, name: os.path.join(base, "rsl_" + name),
+    "symlink-chain": lambda base, name: os.path.join(base, "ch_" + name),
+    # the name of one directory is a prefix of the name of the other one
+    "name-prefix-sibling": lambda base, name: os.path.join(base, "store" + ("" if name == "int" else "." + name)),
+})
+# how a second store object names the (same) directories of the first one; the two objects share one history
+READERS = ["real", "via-link", "relative", "trailing-slash", "dot-segment", "same"]
+DIR_KINDS = ["local", "local+lru", "local/2"]
+DBFS_SHAPES = {"plain": "dbfs:/store/{n}", "trailing-slash": "dbfs:/store/{n}/", "nested": "dbfs:/n1/n2/n3/{n}", "top-level": "dbfs:/{n}",
+               "spaces-unicode-dots": "dbfs:/sp ace/\u00e9.d/.h/{n}.d", "name-prefix-sibling": "dbfs:/store/d{p}"}
 
 
 def segs_of(p):
@@ -77,7 +98,89 @@ def gen_seq(rng, paths, length, reopen=True):
 
 
 def spec_ops(ops):
-    return [o for o in ops if o[0] != "reopen"]
+    return [o for o in ops if o[0] not in ("reopen", "chdir")]
+
+
+def gen_dir_history(rng, two):
+    """a history for a store opened on directories of a given shape: two blobs are stored and committed under two paths, which are
+    read back at once, after the working directory of the process has moved, and (at the end) by a new store object; in between
+    a random sequence with more reopenings and moves.  With two store objects every operation is given to one of them: the first
+    one writes and the second one reads in the fixed part, at random afterwards."""
+    paths = gen_paths(rng, 3)
+    ops = [["put", "k0", "v0"], ["put", "k2", None], ["sync", [[paths[0], "k0"], [paths[1], "k2"]]], ["fpaths", [paths[0]]], ["chdir"],
+           ["fpaths", [paths[1], paths[0]]], ["fetch", "k0"], ["has", "k2"]]
+    who = [0, 0, 0, 1, 0, 1, 1, 1]
+    for o in gen_seq(rng, paths, rng.randint(6, 18)):
+        if rng.random() < 0.12:
+            ops.append(["chdir"])
+        ops.append(o)
+    ops += [["reopen"], ["fpaths", [paths[0]]], ["fetch", "k0"], ["has", "k1"], ["fpaths", [paths[2]]]]
+    who += [rng.randint(0, 1) for _ in range(len(ops) - len(who))]
+    return ops, (who if two else None)
+
+
+def dir_jobs(rng, tier, quick):
+    shapes, jobs = list(DIR_SHAPES), []
+    n = len(shapes)
+    if quick:
+        # every shape as internal directory, as data directory, and paired with another shape
+        pairs = [(a, "absolute") for a in shapes] + [("absolute", b) for b in shapes[1:]] + [(a, shapes[(i + 5) % n]) for i, a in enumerate(shapes)]
+    else:
+        pairs = list(itertools.product(shapes, shapes))
+    for i, (a, b) in enumerate(pairs):
+        kind = DIR_KINDS[(i + i // n) % len(DIR_KINDS)]
+        dirs = {"internal": DIR_SHAPES[a]("@BASE@", "int"), "data": DIR_SHAPES[b]("@BASE@", "dat")}
+        if kind == "local/2":
+            dirs["reader"] = {"internal": READERS[(i // 3) % len(READERS)], "data": READERS[(i // 3 + i // 18 + 1) % len(READERS)]}
+        ops, who = gen_dir_history(rng, "reader" in dirs)
+        jobs.append({"store": "local", "cap": 3 if "+lru" in kind else "bare", "kind": kind, "ishape": a, "dshape": b, "dirs": dirs, "ops": ops, "who": who})
+    # the DBFS store: the shape of the two URIs; a second store object that names them with / without a trailing slash
+    dshapes = list(DBFS_SHAPES)
+    dpairs = [(a, "plain") for a in dshapes] + [("plain", b) for b in dshapes[1:]] if quick else list(itertools.product(dshapes, dshapes))
+    for i, (a, b) in enumerate(dpairs):
+        dirs = {"internal": DBFS_SHAPES[a].format(n="int", p=""), "data": DBFS_SHAPES[b].format(n="dat", p=".dat")}
+        kind = ["dbfs-full", "dbfs-full/2"][i % 2]
+        if kind == "dbfs-full/2":
+            dirs["reader"] = {k: (u.rstrip("/") if u.endswith("/") else u + "/") for k, u in dirs.items()}
+        ops, who = gen_dir_history(rng, "reader" in dirs)
+        jobs.append({"store": "dbfs-full", "cap": "bare", "kind": kind, "ishape": a, "dshape": b, "dirs": dirs, "ops": ops, "who": who})
+    return jobs
+
+
+def dir_outs(r, j):
+    # (the DBFS store lets the exception of dbutils through for a path without record; the dictionary says "error")
+    return ["E" if (x == "X:Exception" and o[0] == "fpaths" and j["kind"].startswith("dbfs")) else x
+            for x, o in zip(r["outs"], j["ops"]) if o[0] not in ("reopen", "chdir")]
+
+
+def dir_show(j):
+    d = j["dirs"]
+    rd = d.get("reader")
+    return (f"{j['kind']} store opened on internal_dir={d['internal']!r} ({j['ishape']}) data_dir={d['data']!r} ({j['dshape']})" +
+            (f" and a second store object on the same directories named {rd['internal']!r} / {rd['data']!r}" if rd else ""))
+
+
+def check_dirs(rep, djobs, dres, dmodel):
+    for j, r, m in zip(djobs, dres, dmodel):
+        ops, so = j["ops"], spec_ops(j["ops"])
+        rep.case(json.dumps(["dirs", j["kind"], j["dirs"], ops, j["who"]]), (j["ishape"], j["dshape"]) not in (("absolute", "absolute"), ("plain", "plain")))
+        replay = {"dirs": j["dirs"], "store": j["kind"], "shapes": [j["ishape"], j["dshape"]], "ops": ops, "who": j["who"], "model": m,
+                  "names": r.get("names"), "physical": r.get("physical")}
+        if r.get("open_error"):
+            rep.violation(f"directory-shape:{j['kind']}:store-not-opened", f"{dir_show(j)}: creating the store object fails: {r['open_error']}", replay)
+            continue
+        io, mo = dir_outs(r, j), m.split(";")
+        if io != mo:
+            idx = next((i for i, (a, b) in enumerate(zip(io, mo)) if a != b), -1)
+            full = [i for i, o in enumerate(ops) if o[0] not in ("reopen", "chdir")][idx] if idx >= 0 else 0
+            ctx = [w for w, t in (("the store was reopened", "reopen"), ("the working directory has changed", "chdir")) if any(o[0] == t for o in ops[:full])]
+            rep.violation(f"directory-shape:{j['kind']}:store-differs-from-dictionary:{so[idx][0] if idx >= 0 else '?'}",
+                          f"{dir_show(j)}: {so[idx] if idx >= 0 else ''}{' by the second object' if j['who'] and idx >= 0 and j['who'][full] else ''} "
+                          f"answers {io[idx] if idx >= 0 else io[:6]} where the dictionary model answers {mo[idx] if idx >= 0 else mo[:6]} "
+                          f"(operation {full} of the history{'; before it ' + ' and '.join(ctx) if ctx else ''})", dict(replay, impl=";".join(io), first_diff=idx))
+        if r.get("outside"):
+            rep.violation(f"directory-shape:{j['kind']}:escape", f"{dir_show(j)}: entries created outside the data directory {r['physical']['data']}: {r['outside'][:4]}",
+                          dict(replay, outside=r["outside"]))
 
 
 def vclass(name):
@@ -226,8 +329,21 @@ def run(rep, tier, seed, proof_ok):
                 "ordered pairs of values (thorough: + all triples over 8 core values) and random sequences over 3 keys on the bare "
                 "MemoryStore, LocalFileStore and DBFSStore, content-addressed random sequences behind an object cache of capacity 2, "
                 "the answer of every operation compared with the dictionary (last value stored wins) evaluated in Coq; "
+                "directory shapes: histories (two blobs committed under two paths and read back at once, after the working directory "
+                "of the process has moved, after a random sequence with reopenings and moves, and by a new store object) on a "
+                "LocalFileStore whose internal_dir x data_dir have the shapes {absolute, relative, ./relative, trailing slash, nested "
+                "not yet existing, pre-existing, a symbolic link among the ancestors (same depth / deeper target / relative), the "
+                "directory itself a symbolic link (absolute target / relative target / chain of two links), names with spaces, "
+                "unicode and dots, a '..' segment, doubled slashes, relative through '..', one name a prefix of the other}, bare, "
+                "behind an object cache of capacity 3, or worked on by TWO store objects that share the history and name the same "
+                "directories differently (physical path / a new symbolic link / relative / trailing slash / '.' segments): one writes, "
+                "the other reads, then at random; DBFSStore on URIs {plain, trailing slash, nested, top-level, spaces / unicode / dots, "
+                "prefix names}, alone or with a second store object with / without the trailing slash; every answer compared with the "
+                "dictionary evaluated in Coq, every file / link created must be physically inside the data (or internal) directory "
+                "(quick: every shape as internal, as data and in one mixed pair; thorough: all pairs of shapes); "
                 "distinct = distinct (store, sequence) or path pair; non-trivial = sequence with a sync followed by a "
-                "fetch of the same path, or typed history that stores one key with values of two codec classes")
+                "fetch of the same path, or typed history that stores one key with values of two codec classes, or history on "
+                "directories of a shape other than absolute/absolute")
     n_seq = 40 if tier == "quick" and proof_ok else 400
     jobs = []
     for i in range(n_seq):
@@ -237,7 +353,13 @@ def run(rep, tier, seed, proof_ok):
         store, cap = (kind.split("+")[0], 3) if "+lru" in kind else (kind, "bare")
         jobs.append({"store": store, "cap": cap, "ops": ops, "listing": store == "local", "kind": kind})
     out = C.run_driver("drive_store.py", {"seqs": jobs})["seqs"]
-    model = C.coq_eval_strings(PRELUDE, [f"run_bare {c12.ops_coq(spec_ops(j['ops']))}" for j in jobs], label="c08")
+    # the shape of the directories the store is opened on x histories (with reopenings, moves of the working directory, two
+    # store objects that name the same directories differently), against the same dictionary
+    djobs = dir_jobs(random.Random(f"{seed}/dirs"), tier, tier == "quick" and proof_ok)
+    dres = C.run_driver("drive_store_dirs.py", {"seqs": [{k: j[k] for k in ("store", "cap", "dirs", "ops", "who")} for j in djobs]})["seqs"]
+    model = C.coq_eval_strings(PRELUDE, [f"run_bare {c12.ops_coq(spec_ops(j['ops']))}" for j in jobs + djobs], label="c08")
+    model, dmodel = model[:len(jobs)], model[len(jobs):]
+    check_dirs(rep, djobs, dres, dmodel)
     for j, r, m in zip(jobs, out, model):
         ops = j["ops"]
         synced = set()
@@ -324,10 +446,18 @@ def run(rep, tier, seed, proof_ok):
                                        "typed_values_by_codec_class": {c: sum(1 for v in TYPED if vclass(v) == c) for c in ("str", "bytes", "pickle")},
                                        "typed_histories": len(tjobs),
                                        "typed_by_shape": {k: sum(1 for j in tjobs if j["shape"] == k) for k in ("pair", "triple", "random")},
-                                       "typed_by_store": {k: sum(1 for j in tjobs if j["kind"] == k) for k in TYPED_STORES + ["local+lru"]}}
+                                       "typed_by_store": {k: sum(1 for j in tjobs if j["kind"] == k) for k in TYPED_STORES + ["local+lru"]},
+                                       "dir_histories": len(djobs), "dir_shapes": len(DIR_SHAPES), "dbfs_uri_shapes": len(DBFS_SHAPES),
+                                       "dir_shape_pairs": len({(j["store"], j["ishape"], j["dshape"]) for j in djobs}),
+                                       "dir_by_kind": {k: sum(1 for j in djobs if j["kind"] == k) for k in DIR_KINDS + ["dbfs-full", "dbfs-full/2"]},
+                                       "dir_second_object_namings": len({(j["dirs"]["reader"]["internal"], j["dirs"]["reader"]["data"])
+                                                                         for j in djobs if j["kind"] == "local/2"}),
+                                       "dir_operations": sum(len(j["ops"]) for j in djobs)}
     rep.sample({"store": jobs[1]["kind"], "ops": jobs[1]["ops"][:8]})
     rep.sample({"typed": tjobs[1]["kind"], "ops": typed_impl_ops(tjobs[1]["ops"])[:8]})
     rep.sample({"alias_candidates": cand[:5] + odd[:4]})
+    dj = next(j for j in djobs if j["kind"] == "local/2" and j["ishape"] != "absolute")
+    rep.sample({"store": dj["kind"], "dirs": dj["dirs"], "ops": dj["ops"][:10], "who": dj["who"][:10]})
 
 
 def replay(path):
@@ -339,6 +469,14 @@ def replay(path):
         impl, raw, m = run_typed([j])[0]
         print(json.dumps({"ops": typed_impl_ops(r["ops"]), "impl": raw, "model": m}, indent=1))
         bad = impl != m
+    elif "dirs" in r:
+        j = {"kind": r["store"], "store": r["store"].split("+")[0].split("/")[0], "cap": 3 if "+lru" in r["store"] else "bare", "dirs": r["dirs"],
+             "ops": r["ops"], "who": r["who"]}
+        o = C.run_driver("drive_store_dirs.py", {"seqs": [{k: j[k] for k in ("store", "cap", "dirs", "ops", "who")}]})["seqs"][0]
+        m = C.coq_eval_strings(PRELUDE, [f"run_bare {c12.ops_coq(spec_ops(j['ops']))}"], label="c08")[0]
+        print(json.dumps({"dirs": r["dirs"], "names": o.get("names"), "ops": r["ops"], "who": r["who"], "impl": o["outs"], "model": m,
+                          "open_error": o.get("open_error"), "outside": o.get("outside")}, indent=1))
+        bad = bool(o.get("open_error")) or dir_outs(o, j) != m.split(";") or bool(o.get("outside"))
     elif "ops" in r:
         store = r["store"].split("+")[0]
         o = C.run_driver("drive_store.py", {"seqs": [{"store": store, "cap": 3 if "+lru" in r["store"] else "bare", "ops": r["ops"], "listing": store == "local"}]})["seqs"][0]
